@@ -36,6 +36,45 @@ theorem mem_transfer {c : Ctx} {f i x : Nat} {st : LS} :
     x ∈ (c.transfer f i st).live ↔ x ∈ c.reads i ∨ x ∈ c.calleeReads f i ∨ (x ∈ st.live ∧ x ∉ c.writes i) := by
   simp only [Ctx.transfer, mem_uni_iff, mem_dif_iff, or_assoc]
 
+
+theorem lvStmt_if_none (c : Ctx) (f nl : Nat) (lc : LoopCtx) (cnd : Expr) (t : List Stmt) (ts : Span) (j : Nat) (sp : Span) (st : LS) :
+    (lvStmt c f nl lc (.ifS cnd (.mk t ts) none (some j) sp) st).1 =
+      c.transfer f j (boundary (uni
+        (lvStmts c f nl { lc with kills := uni (c.scopeLocalsOf t) lc.kills } t (boundary (dif st.live (c.scopeLocalsOf t)))).1.live
+        st.live)) := by
+  simp only [lvStmt]
+  try rfl
+
+theorem lvStmt_if_some (c : Ctx) (f nl : Nat) (lc : LoopCtx) (cnd : Expr) (t e : List Stmt) (ts es : Span) (j : Nat) (sp : Span) (st : LS) :
+    (lvStmt c f nl lc (.ifS cnd (.mk t ts) (some (.mk e es)) (some j) sp) st).1 =
+      c.transfer f j (boundary (uni
+        (lvStmts c f nl { lc with kills := uni (c.scopeLocalsOf t) lc.kills } t (boundary (dif st.live (c.scopeLocalsOf t)))).1.live
+        (lvStmts c f nl { lc with kills := uni (c.scopeLocalsOf e) lc.kills } e (boundary (dif st.live (c.scopeLocalsOf e)))).1.live)) := by
+  simp only [lvStmt]
+  try rfl
+
+theorem lvStmt_block (c : Ctx) (f nl : Nat) (lc : LoopCtx) (b : List Stmt) (bs : Span) (j : Nat) (sp : Span) (st : LS) :
+    (lvStmt c f nl lc (.block (.mk b bs) (some j) sp) st).1 =
+      c.transfer f j
+        (lvStmts c f nl { lc with kills := uni (c.scopeLocalsOf b) lc.kills } b
+          { live := uni (inter st.gen (c.scopeLocalsOf b)) (dif st.live (c.scopeLocalsOf b)), gen := st.gen }).1 := by
+  simp only [lvStmt]
+  try rfl
+
+def loopHead (c : Ctx) (f nl j : Nat) (b : List Stmt) (a : List Nat) (x : List Nat) : List Nat :=
+  (c.transfer f j (boundary (uni
+    (lvStmts c f nl { brk := some a, cont := some x, kills := c.scopeLocalsOf b } b (boundary (dif x (c.scopeLocalsOf b)))).1.live a))).live
+
+theorem lvStmt_loop (c : Ctx) (f nl : Nat) (lc : LoopCtx) (cnd : Expr) (b : List Stmt) (bs : Span) (j : Nat) (sp : Span) (st : LS) :
+    (lvStmt c f nl lc (.loop cnd (.mk b bs) (some j) sp) st).1 =
+      boundary (lfp (loopHead c f nl j b st.live) (nl + 1) []) := by
+  simp only [lvStmt]
+  try rfl
+
+theorem lvStmts_cons (c : Ctx) (f nl : Nat) (lc : LoopCtx) (s : Stmt) (ss : List Stmt) (st : LS) :
+    (lvStmts c f nl lc (s :: ss) st).1 = (lvStmt c f nl lc s (lvStmts c f nl lc ss st).1).1 := by
+  simp only [lvStmts]
+
 section helpers
 variable {L : LSetup}
 
@@ -55,7 +94,7 @@ theorem need_mono {l1 l2 : List Nat} {A : Nat → Prop} (hsub : ∀ x ∈ l1, x 
 theorem exprCtx_of (hs : LSetupOk L) {f i : Nat} {σ : SigM} {A : Nat → Prop} {st : LS}
     (hT : (i, true) ∈ L.T) (hfn : L.c.fnOf i = f) (hbr : L.BR f = true)
     (hn : Need L (L.c.transfer f i st).live A)
-    (hm : ∀ p ∈ σ, ∀ l, p.2 l → (!L.c.live i || L.refFreeB l i) = true) : ExprCtx L f σ A i where
+    (hm : ∀ p ∈ σ, ∀ l, p.2 l → (!L.c.live i || L.c.refFreeB l i) = true) : ExprCtx L f σ A i where
   aReads := by
     intro x hx
     exact hn x (mem_transfer.mpr (Or.inl hx)) ((hs.used i hT (by rw [hfn]; exact hbr)).1 x hx)
@@ -121,7 +160,7 @@ theorem erel_assign_top {A : Nat → Prop} {tg l : Nat} {σ : SigM} {Γr : List 
     rw [hff] at hfr; cases hfr
     exact hm M hM)
   cases ea : assignEnv L.ds l v a <;> cases eb : assignEnv L.ds l v b <;> simp only [ea, eb, ORel] at h1 ⊢
-  refine erel_mono (gle_upd_top (tg := tg) (A' := fun y => A y ∨ y = l) (fun _ => ⟨rfl, rfl⟩) ?_ σ Γr hnd hin ?_) h1
+  refine erel_mono (gle_upd_top (tg := tg) (A := A) (A' := fun y => A y ∨ y = l) (g := Frame.addA l) (fun _ => ⟨rfl, rfl⟩) ?_ σ Γr hnd hin ?_) h1
   · intro fr y _ hfr hA
     simp only [Frame.addA, hfr]
     exact hA
@@ -138,7 +177,7 @@ theorem erel_assign_plain_top {A : Nat → Prop} {tg l : Nat} {σ : SigM} {Γr :
     (hin : some tg ∈ tagsOf σ) (hnd : TagsNodup (tagsOf σ)) (hb : assignEnv L.ds l v b = some b') :
     ERel L.ds (mkTop (fun y => A y ∧ y ≠ l) σ ++ Γr) a b' := by
   have h1 := erel_assign_plain hl h hb
-  refine erel_mono (gle_upd_top (tg := tg) (A' := fun y => A y ∧ y ≠ l) (fun _ => ⟨rfl, rfl⟩) ?_ σ Γr hnd hin ?_) h1
+  refine erel_mono (gle_upd_top (tg := tg) (A := A) (A' := fun y => A y ∧ y ≠ l) (g := Frame.delA l) (fun _ => ⟨rfl, rfl⟩) ?_ σ Γr hnd hin ?_) h1
   · intro fr y _ hfr hA
     simp only [Frame.delA, hfr]
     exact hA
@@ -166,5 +205,894 @@ theorem erel_assign_capt {f : Nat} {A : Nat → Prop} {l : Nat} {σ : SigM} {Γr
     exact erel_mono (gle_upd_addA _) h1
 
 end stores
+
+/-! ### One statement -/
+
+/- `chain` for a goal whose outcome is `LOutF` (statement level) while the sub-evaluation's is `LOut`. -/
+set_option hygiene false in
+macro "chainF " t1:term ", " t2:term ", " ho:ident ", " hq:ident : tactic => `(tactic|
+  ( generalize $t2 = r2 at $ho:ident $hq:ident ⊢
+    generalize $t1 = r1 at $ho:ident ⊢
+    obtain ⟨x2, s2⟩ := r2
+    obtain ⟨x1, s1⟩ := r1
+    rcases $ho:ident with hbad | ⟨heq, hrel'⟩
+    · rcases hbad with hb | hb | hb <;>
+        (simp only at hb; subst hb; first | exact ⟨Or.inl bad_fuel, $hq⟩ | exact ⟨Or.inl bad_unbound, $hq⟩ | exact ⟨Or.inl bad_panic, $hq⟩)
+    simp only at heq
+    subst heq
+    rcases x1 with er | v
+    · exact ⟨Or.inr ⟨rfl, _, hrel', trivial⟩, $hq⟩
+    try simp only [] ))
+
+section sstep
+variable {P : Prims V} {L : LSetup} {n : Nat}
+
+theorem mOk_simple {σ : SigM} {s : Stmt} {i : Nat} (hm : MOkStmt L σ s)
+    (hs : ∀ l, noRefB L.c l s = true → (!L.c.live i || L.c.refFreeB l i) = true) :
+    ∀ p ∈ σ, ∀ l, p.2 l → (!L.c.live i || L.c.refFreeB l i) = true :=
+  fun p hp l hl => hs l (hm p hp l hl)
+
+theorem lstep_assign (hd : P.dscope = L.ds) (hs : LSetupOk L) (ih : LSim P L n)
+    (vr : Bytes) (vs : Span) (e : Expr) (bd : Option Nat) (j : Nat) (sp : Span) (rest : List Stmt) (a b : St V) (f : Nat)
+    (σ : SigM) (Γr : List Frame) (lc : LoopCtx) (post : LS) (A : Nat → Prop)
+    (hsk : L.cfg.skip j = false) (hc : ConsStmt L.T true (.assign vr vs e bd (some j) sp))
+    (hok : lokB L f (tagsOf σ) lc (.assign vr vs e bd (some j) sp) post rest = true)
+    (hf : L.BR f = true) (ha : ActOk L f σ Γr) (hm : MOkStmt L σ (.assign vr vs e bd (some j) sp))
+    (hn : Need L (lvStmt L.c f L.nl lc (.assign vr vs e bd (some j) sp) post).1.live A)
+    (hr : LRel L (mkTop A σ ++ Γr) a b) (hi : LInv L b) :
+    LOutF L σ Γr lc post.live (fun _ => False) (execStmt P L.cfg (n + 1) (.assign vr vs e bd (some j) sp) a)
+        (execStmt P plain (n + 1) (.assign vr vs e bd (some j) sp) b) ∧
+      LInv L (execStmt P plain (n + 1) (.assign vr vs e bd (some j) sp) b).2 := by
+  have hiT : (j, true) ∈ L.T := consStmt_inTbl hc j rfl
+  simp only [lokB, Bool.and_eq_true] at hok
+  obtain ⟨hfn, hfit⟩ := base_parts hok.1
+  simp only [lvStmt] at hn
+  have hctx := exprCtx_of hs hiT hfn hf hn (mOk_simple hm (fun l h => by simpa [noRefB] using h))
+  simp only [execStmt]
+  obtain ⟨ho, hq⟩ := ih.expr e a b f j σ Γr A hfit ha hctx hr hi
+  chainF (evalExpr P L.cfg n e a), (evalExpr P plain n e b), ho, hq
+  cases bd with
+  | none => exact ⟨Or.inr ⟨rfl, A, hrel', trivial⟩, hq⟩
+  | some l =>
+    simp only []
+    have hst := hok.2
+    simp only [Bool.and_eq_true, LSetup.ownStoreB, beq_iff_eq] at hst
+    obtain ⟨_, ⟨hw, hdecl⟩, _⟩ := hst
+    cases hl : L.ds l with
+    | none => simp [hl] at hdecl
+    | some tg =>
+      simp only [hl, ↓reduceIte] at hdecl
+      -- the innermost scope is the one that declares `l`
+      match σ, hdecl, ha, hrel', hn with
+      | [], hdecl, _, _, _ => simp [tagsOf] at hdecl
+      | (t0, M0) :: σ', hdecl, ha, hrel', hn =>
+        have ht0 : t0 = some tg := by simpa [tagsOf] using hdecl
+        subst ht0
+        have hdef := erel_define_top (v := v) hrel'.2.2 hl ha.nodup
+        refine ⟨Or.inr ⟨rfl, fun y => A y ∨ y = l, ⟨hrel'.1, hrel'.2.1, hdef⟩, ?_⟩, hq⟩
+        intro x hx hdx
+        rcases hx with hx | hx
+        · by_cases hxl : x = l
+          · exact Or.inr hxl
+          · refine Or.inl (hn x (mem_transfer.mpr (Or.inr (Or.inr ⟨hx, ?_⟩))) hdx)
+            rw [hw]; simpa using hxl
+        · exact absurd hx id
+
+theorem lstep_assignExisting (hd : P.dscope = L.ds) (hs : LSetupOk L) (ih : LSim P L n)
+    (vr : Bytes) (vs : Span) (e : Expr) (bd : Option Nat) (j : Nat) (sp : Span) (rest : List Stmt) (a b : St V) (f : Nat)
+    (σ : SigM) (Γr : List Frame) (lc : LoopCtx) (post : LS) (A : Nat → Prop)
+    (hsk : L.cfg.skip j = false) (hc : ConsStmt L.T true (.assignExisting vr vs e bd (some j) sp))
+    (hok : lokB L f (tagsOf σ) lc (.assignExisting vr vs e bd (some j) sp) post rest = true)
+    (hf : L.BR f = true) (ha : ActOk L f σ Γr) (hm : MOkStmt L σ (.assignExisting vr vs e bd (some j) sp))
+    (hn : Need L (lvStmt L.c f L.nl lc (.assignExisting vr vs e bd (some j) sp) post).1.live A)
+    (hr : LRel L (mkTop A σ ++ Γr) a b) (hi : LInv L b) :
+    LOutF L σ Γr lc post.live (fun _ => False) (execStmt P L.cfg (n + 1) (.assignExisting vr vs e bd (some j) sp) a)
+        (execStmt P plain (n + 1) (.assignExisting vr vs e bd (some j) sp) b) ∧
+      LInv L (execStmt P plain (n + 1) (.assignExisting vr vs e bd (some j) sp) b).2 := by
+  have hiT : (j, true) ∈ L.T := consStmt_inTbl hc j rfl
+  simp only [lokB, Bool.and_eq_true] at hok
+  obtain ⟨hfn, hfit⟩ := base_parts hok.1
+  simp only [lvStmt] at hn
+  have hmm := mOk_simple hm (i := j) (fun l h => by simpa [noRefB] using h)
+  have hctx := exprCtx_of hs hiT hfn hf hn hmm
+  simp only [execStmt, hd]
+  obtain ⟨ho, hq⟩ := ih.expr e a b f j σ Γr A hfit ha hctx hr hi
+  chainF (evalExpr P L.cfg n e a), (evalExpr P plain n e b), ho, hq
+  cases bd with
+  | none => exact ⟨Or.inl bad_unbound, hq⟩
+  | some l =>
+    simp only [Option.bind_some]
+    have hst := hok.2
+    simp only [] at hst
+    split at hst
+    · -- own variable
+      simp only [Bool.and_eq_true, LSetup.ownStoreB, beq_iff_eq, Bool.false_eq_true, ↓reduceIte] at hst
+      obtain ⟨⟨hw, hin⟩, _⟩ := hst
+      obtain ⟨tg, hl, hin⟩ := inTags_iff.mp hin
+      have hasg := erel_assign_top (v := v) hrel'.2.2 hl hin ha.nodup (by
+        intro M hM hMl
+        have := refFree_writes (hctx.mOk _ hM l hMl)
+        rw [hw] at this
+        simp at this)
+      cases e1 : assignEnv L.ds l v s1.env <;> cases e2 : assignEnv L.ds l v s2.env <;> simp only [e1, e2, ORel] at hasg
+      · exact ⟨Or.inl bad_unbound, hq⟩
+      · refine ⟨Or.inr ⟨rfl, fun y => A y ∨ y = l, ⟨hrel'.1, hrel'.2.1, hasg⟩, ?_⟩, hq⟩
+        intro x hx hdx
+        rcases hx with hx | hx
+        · by_cases hxl : x = l
+          · exact Or.inr hxl
+          · refine Or.inl (hn x (mem_transfer.mpr (Or.inr (Or.inr ⟨hx, ?_⟩))) hdx)
+            rw [hw]; simpa using hxl
+        · exact absurd hx id
+    · -- captured variable
+      simp only [Bool.and_eq_true, List.isEmpty_iff, List.contains_eq_mem, decide_eq_true_eq, Bool.not_eq_true'] at hst
+      obtain ⟨⟨⟨hw, htw⟩, hout⟩, _⟩ := hst
+      have hasg := erel_assign_capt (v := v) ha hrel'.2.2 htw hout
+      cases e1 : assignEnv L.ds l v s1.env <;> cases e2 : assignEnv L.ds l v s2.env <;> simp only [e1, e2, ORel] at hasg
+      · exact ⟨Or.inl bad_unbound, hq⟩
+      · refine ⟨Or.inr ⟨rfl, A, ⟨hrel'.1, hrel'.2.1, hasg⟩, ?_⟩, hq⟩
+        intro x hx hdx
+        rcases hx with hx | hx
+        · refine hn x (mem_transfer.mpr (Or.inr (Or.inr ⟨hx, ?_⟩))) hdx
+          rw [hw]; simp
+        · exact absurd hx id
+
+/-- After a statement that is not a store has evaluated its expressions. -/
+theorem flowNeed_normal_other {f j : Nat} {lc : LoopCtx} {post : LS} {A : Nat → Prop} (hw : L.writesOkB j = true)
+    (hn : Need L (L.c.transfer f j post).live A) :
+    FlowNeed (V := V) L lc post.live (fun _ => False) A (.ok .normal) := by
+  intro x hx hdx
+  rcases hx with hx | hx
+  · exact need_after hw hn x hx hdx
+  · exact absurd hx id
+
+theorem lstep_assignIndex (hd : P.dscope = L.ds) (hs : LSetupOk L) (ih : LSim P L n)
+    (t e : Expr) (j : Nat) (sp : Span) (rest : List Stmt) (a b : St V) (f : Nat)
+    (σ : SigM) (Γr : List Frame) (lc : LoopCtx) (post : LS) (A : Nat → Prop)
+    (hc : ConsStmt L.T true (.assignIndex t e (some j) sp))
+    (hok : lokB L f (tagsOf σ) lc (.assignIndex t e (some j) sp) post rest = true)
+    (hf : L.BR f = true) (ha : ActOk L f σ Γr) (hm : MOkStmt L σ (.assignIndex t e (some j) sp))
+    (hn : Need L (lvStmt L.c f L.nl lc (.assignIndex t e (some j) sp) post).1.live A)
+    (hr : LRel L (mkTop A σ ++ Γr) a b) (hi : LInv L b) :
+    LOutF L σ Γr lc post.live (fun _ => False) (execStmt P L.cfg (n + 1) (.assignIndex t e (some j) sp) a)
+        (execStmt P plain (n + 1) (.assignIndex t e (some j) sp) b) ∧
+      LInv L (execStmt P plain (n + 1) (.assignIndex t e (some j) sp) b).2 := by
+  have hiT : (j, true) ∈ L.T := consStmt_inTbl hc j rfl
+  simp only [lokB, Bool.and_eq_true] at hok
+  obtain ⟨hfn, hfit⟩ := base_parts hok.1.1
+  simp only [lvStmt] at hn
+  have hctx := exprCtx_of hs hiT hfn hf hn (mOk_simple hm (fun l h => by simpa [noRefB] using h))
+  have hfit2 := efit_cons.mp hfit
+  simp only [execStmt, hd]
+  obtain ⟨ho, hq⟩ := ih.expr e a b f j σ Γr A hfit2.2 ha hctx hr hi
+  chainF (evalExpr P L.cfg n e a), (evalExpr P plain n e b), ho, hq
+  simp only at hq hrel'
+  revert v
+  intro val
+  cases hlv : lvalue t with
+  | none => exact ⟨Or.inr ⟨rfl, A, hrel', trivial⟩, hq⟩
+  | some rp =>
+    obtain ⟨root, path⟩ := rp
+    have ht := hfit2.1
+    rw [efit_single] at ht
+    have hlo := eOk_lvalue t root path ht hlv
+    have hroot : L.varFit f (tagsOf σ) j root = true := by simpa using hlo.1
+    simp only []
+    obtain ⟨ho2, hq2⟩ := ih.list path s1 s2 f j σ Γr A hlo.2 ha hctx hrel' hq
+    chainF (evalList P L.cfg n path s1), (evalList P plain n path s2), ho2, hq2
+    have el : lookupEnv L.ds root s1.env = lookupEnv L.ds root s2.env := fit_lookup hs ha hctx hroot hrel'.2.2
+    rw [el]
+    cases lookupEnv L.ds root s2.env with
+    | none => exact ⟨Or.inl bad_unbound, hq2⟩
+    | some old =>
+      simp only []
+      cases P.setPath old v val with
+      | error er => exact ⟨Or.inr ⟨rfl, A, hrel', trivial⟩, hq2⟩
+      | ok new =>
+        simp only []
+        have hasg := fit_assign (v := new) hs ha hctx hroot hrel'.2.2
+        cases e1 : assignEnv L.ds root new s1.env <;> cases e2 : assignEnv L.ds root new s2.env <;>
+          simp only [e1, e2, ORel] at hasg
+        · exact ⟨Or.inr ⟨rfl, A, hrel', trivial⟩, hq2⟩
+        · exact ⟨Or.inr ⟨rfl, A, ⟨hrel'.1, hrel'.2.1, hasg⟩, flowNeed_normal_other hok.1.2 hn⟩, hq2⟩
+
+theorem lstep_exprStmt (hs : LSetupOk L) (ih : LSim P L n)
+    (e : Expr) (j : Nat) (sp : Span) (rest : List Stmt) (a b : St V) (f : Nat)
+    (σ : SigM) (Γr : List Frame) (lc : LoopCtx) (post : LS) (A : Nat → Prop)
+    (hc : ConsStmt L.T true (.expr e (some j) sp))
+    (hok : lokB L f (tagsOf σ) lc (.expr e (some j) sp) post rest = true)
+    (hf : L.BR f = true) (ha : ActOk L f σ Γr) (hm : MOkStmt L σ (.expr e (some j) sp))
+    (hn : Need L (lvStmt L.c f L.nl lc (.expr e (some j) sp) post).1.live A)
+    (hr : LRel L (mkTop A σ ++ Γr) a b) (hi : LInv L b) :
+    LOutF L σ Γr lc post.live (fun _ => False) (execStmt P L.cfg (n + 1) (.expr e (some j) sp) a)
+        (execStmt P plain (n + 1) (.expr e (some j) sp) b) ∧
+      LInv L (execStmt P plain (n + 1) (.expr e (some j) sp) b).2 := by
+  have hiT : (j, true) ∈ L.T := consStmt_inTbl hc j rfl
+  simp only [lokB, Bool.and_eq_true] at hok
+  obtain ⟨hfn, hfit⟩ := base_parts hok.1.1
+  simp only [lvStmt] at hn
+  have hctx := exprCtx_of hs hiT hfn hf hn (mOk_simple hm (fun l h => by simpa [noRefB] using h))
+  simp only [execStmt]
+  obtain ⟨ho, hq⟩ := ih.expr e a b f j σ Γr A hfit ha hctx hr hi
+  chainF (evalExpr P L.cfg n e a), (evalExpr P plain n e b), ho, hq
+  exact ⟨Or.inr ⟨rfl, A, hrel', flowNeed_normal_other hok.1.2 hn⟩, hq⟩
+
+theorem lstep_ret (hs : LSetupOk L) (ih : LSim P L n)
+    (e : Expr) (j : Nat) (sp : Span) (rest : List Stmt) (a b : St V) (f : Nat)
+    (σ : SigM) (Γr : List Frame) (lc : LoopCtx) (post : LS) (A : Nat → Prop)
+    (hc : ConsStmt L.T true (.ret (some e) (some j) sp))
+    (hok : lokB L f (tagsOf σ) lc (.ret (some e) (some j) sp) post rest = true)
+    (hf : L.BR f = true) (ha : ActOk L f σ Γr) (hm : MOkStmt L σ (.ret (some e) (some j) sp))
+    (hn : Need L (lvStmt L.c f L.nl lc (.ret (some e) (some j) sp) post).1.live A)
+    (hr : LRel L (mkTop A σ ++ Γr) a b) (hi : LInv L b) :
+    LOutF L σ Γr lc post.live (fun _ => False) (execStmt P L.cfg (n + 1) (.ret (some e) (some j) sp) a)
+        (execStmt P plain (n + 1) (.ret (some e) (some j) sp) b) ∧
+      LInv L (execStmt P plain (n + 1) (.ret (some e) (some j) sp) b).2 := by
+  have hiT : (j, true) ∈ L.T := consStmt_inTbl hc j rfl
+  simp only [lokB, Bool.and_eq_true] at hok
+  obtain ⟨hfn, hfit⟩ := base_parts hok.1.1
+  simp only [lvStmt] at hn
+  have hctx := exprCtx_of hs hiT hfn hf hn (mOk_simple hm (fun l h => by simpa [noRefB] using h))
+  simp only [execStmt]
+  obtain ⟨ho, hq⟩ := ih.expr e a b f j σ Γr A hfit ha hctx hr hi
+  chainF (evalExpr P L.cfg n e a), (evalExpr P plain n e b), ho, hq
+  exact ⟨Or.inr ⟨rfl, A, hrel', trivial⟩, hq⟩
+
+/-- Leaving a nested block: what was needed inside (with the block's locals killed on the way out)
+gives what is needed outside. -/
+theorem flowNeed_block (hs : LSetupOk L) {lc lc' : LoopCtx} {bd : List Stmt} {post' postO : List Nat} {A' : Nat → Prop}
+    {r : Except Err (Flow V)}
+    (hb : lc'.brk = lc.brk) (hcn : lc'.cont = lc.cont) (hk : lc'.kills = uni (L.c.scopeLocalsOf bd) lc.kills)
+    (hpost : ∀ x ∈ postO, x ∈ post' ∨ x ∈ L.c.scopeLocalsOf bd)
+    (h : FlowNeed L lc' post' (blockLocals L bd) A' r) :
+    FlowNeed L lc postO (fun _ => False) A' r := by
+  have hsl : ∀ x ∈ L.c.scopeLocalsOf bd, blockLocals L bd x := fun x hx => hs.slOk bd x hx
+  have key : ∀ bs x, x ∈ dif bs lc.kills → x ∈ dif bs lc'.kills ∨ blockLocals L bd x := by
+    intro bs x hx
+    by_cases hxs : x ∈ L.c.scopeLocalsOf bd
+    · exact Or.inr (hsl x hxs)
+    · refine Or.inl ?_
+      rw [hk, mem_dif_iff, mem_uni_iff]
+      rw [mem_dif_iff] at hx
+      exact ⟨hx.1, fun h => h.elim hxs hx.2⟩
+  match r, h with
+  | .error _, _ => trivial
+  | .ok (.ret _), _ => trivial
+  | .ok .normal, h =>
+    intro x hx hdx
+    rcases hx with hx | hx
+    · rcases hpost x hx with h1 | h1
+      · exact h x (Or.inl h1) hdx
+      · exact h x (Or.inr (hsl x h1)) hdx
+    · exact absurd hx id
+  | .ok .brk, h =>
+    simp only [FlowNeed, hb] at h ⊢
+    cases hbk : lc.brk with
+    | none => trivial
+    | some bs =>
+      simp only [hbk] at h ⊢
+      intro x hx hdx
+      rcases hx with hx | hx
+      · exact h x (key bs x hx) hdx
+      · exact absurd hx id
+  | .ok .cont, h =>
+    simp only [FlowNeed, hcn] at h ⊢
+    cases hbk : lc.cont with
+    | none => trivial
+    | some bs =>
+      simp only [hbk] at h ⊢
+      intro x hx hdx
+      rcases hx with hx | hx
+      · exact h x (key bs x hx) hdx
+      · exact absurd hx id
+
+theorem loutF_block (hs : LSetupOk L) {σ : SigM} {Γr : List Frame} {lc lc' : LoopCtx} {bd : List Stmt} {post' postO : List Nat}
+    {r1 r2 : R V (Flow V)}
+    (hb : lc'.brk = lc.brk) (hcn : lc'.cont = lc.cont) (hk : lc'.kills = uni (L.c.scopeLocalsOf bd) lc.kills)
+    (hpost : ∀ x ∈ postO, x ∈ post' ∨ x ∈ L.c.scopeLocalsOf bd)
+    (h : LOutF L σ Γr lc' post' (blockLocals L bd) r1 r2) : LOutF L σ Γr lc postO (fun _ => False) r1 r2 := by
+  rcases h with hbad | ⟨heq, A', hrel, hfn⟩
+  · exact Or.inl hbad
+  · exact Or.inr ⟨heq, A', hrel, flowNeed_block hs hb hcn hk hpost hfn⟩
+
+theorem lstep_if_none (hs : LSetupOk L) (ih : LSim P L n)
+    (c : Expr) (t : List Stmt) (ts : Span) (j : Nat) (sp : Span) (rest : List Stmt) (a b : St V) (f : Nat)
+    (σ : SigM) (Γr : List Frame) (lc : LoopCtx) (post : LS) (A : Nat → Prop)
+    (hc : ConsStmt L.T true (.ifS c (.mk t ts) none (some j) sp))
+    (hok : lokB L f (tagsOf σ) lc (.ifS c (.mk t ts) none (some j) sp) post rest = true)
+    (hf : L.BR f = true) (ha : ActOk L f σ Γr) (hm : MOkStmt L σ (.ifS c (.mk t ts) none (some j) sp))
+    (hn : Need L (lvStmt L.c f L.nl lc (.ifS c (.mk t ts) none (some j) sp) post).1.live A)
+    (hr : LRel L (mkTop A σ ++ Γr) a b) (hi : LInv L b) :
+    LOutF L σ Γr lc post.live (fun _ => False) (execStmt P L.cfg (n + 1) (.ifS c (.mk t ts) none (some j) sp) a)
+        (execStmt P plain (n + 1) (.ifS c (.mk t ts) none (some j) sp) b) ∧
+      LInv L (execStmt P plain (n + 1) (.ifS c (.mk t ts) none (some j) sp) b).2 := by
+  have hiT : (j, true) ∈ L.T := consStmt_inTbl hc j rfl
+  simp only [lokB, Bool.and_eq_true] at hok
+  obtain ⟨⟨⟨⟨hbase, hw⟩, _⟩, hblk⟩, hlok⟩ := hok
+  obtain ⟨hfn, hfit⟩ := base_parts hbase
+  rw [lvStmt_if_none] at hn
+  simp only [ConsStmt] at hc
+  have hmm : ∀ p ∈ σ, ∀ l, p.2 l → (!L.c.live j || L.c.refFreeB l j) = true ∧ noRefListB L.c l t = true := by
+    intro p hp l hl
+    have := hm p hp l hl
+    simpa [noRefB] using this
+  have hctx := exprCtx_of hs hiT hfn hf hn (fun p hp l hl => (hmm p hp l hl).1)
+  have hn2 := need_after hw hn
+  simp only [boundary] at hn2
+  simp only [execStmt]
+  obtain ⟨ho, hq⟩ := ih.expr c a b f j σ Γr A hfit ha hctx hr hi
+  chainF (evalExpr P L.cfg n c a), (evalExpr P plain n c b), ho, hq
+  cases P.cond v with
+  | error er => exact ⟨Or.inr ⟨rfl, A, hrel', trivial⟩, hq⟩
+  | ok bv =>
+    cases bv with
+    | false =>
+      refine ⟨Or.inr ⟨rfl, A, hrel', ?_⟩, hq⟩
+      intro x hx hdx
+      rcases hx with hx | hx
+      · exact hn2 x (mem_uni_iff.mpr (Or.inr hx)) hdx
+      · exact absurd hx id
+    | true =>
+      obtain ⟨ho2, hq2⟩ := ih.block t s1 s2 f σ Γr { lc with kills := uni (L.c.scopeLocalsOf t) lc.kills }
+        (boundary (dif post.live (L.c.scopeLocalsOf t))) A hc.2 hlok hblk hf ha (fun p hp l hl => (hmm p hp l hl).2)
+        (need_mono (fun x hx => mem_uni_iff.mpr (Or.inl hx)) hn2) hrel' hq
+      refine ⟨loutF_block (bd := t) (lc' := { lc with kills := uni (L.c.scopeLocalsOf t) lc.kills }) hs rfl rfl rfl ?_ ho2, hq2⟩
+      intro x hx
+      by_cases hxs : x ∈ L.c.scopeLocalsOf t
+      · exact Or.inr hxs
+      · exact Or.inl (by simp only [boundary]; exact mem_dif_iff.mpr ⟨hx, hxs⟩)
+
+theorem lstep_if_some (hs : LSetupOk L) (ih : LSim P L n)
+    (c : Expr) (t : List Stmt) (ts : Span) (el : List Stmt) (es : Span) (j : Nat) (sp : Span) (rest : List Stmt) (a b : St V) (f : Nat)
+    (σ : SigM) (Γr : List Frame) (lc : LoopCtx) (post : LS) (A : Nat → Prop)
+    (hc : ConsStmt L.T true (.ifS c (.mk t ts) (some (.mk el es)) (some j) sp))
+    (hok : lokB L f (tagsOf σ) lc (.ifS c (.mk t ts) (some (.mk el es)) (some j) sp) post rest = true)
+    (hf : L.BR f = true) (ha : ActOk L f σ Γr) (hm : MOkStmt L σ (.ifS c (.mk t ts) (some (.mk el es)) (some j) sp))
+    (hn : Need L (lvStmt L.c f L.nl lc (.ifS c (.mk t ts) (some (.mk el es)) (some j) sp) post).1.live A)
+    (hr : LRel L (mkTop A σ ++ Γr) a b) (hi : LInv L b) :
+    LOutF L σ Γr lc post.live (fun _ => False) (execStmt P L.cfg (n + 1) (.ifS c (.mk t ts) (some (.mk el es)) (some j) sp) a)
+        (execStmt P plain (n + 1) (.ifS c (.mk t ts) (some (.mk el es)) (some j) sp) b) ∧
+      LInv L (execStmt P plain (n + 1) (.ifS c (.mk t ts) (some (.mk el es)) (some j) sp) b).2 := by
+  have hiT : (j, true) ∈ L.T := consStmt_inTbl hc j rfl
+  simp only [lokB, Bool.and_eq_true] at hok
+  obtain ⟨⟨⟨⟨⟨⟨hbase, hw⟩, _⟩, hblk⟩, hblk2⟩, hlok⟩, hlok2⟩ := hok
+  obtain ⟨hfn, hfit⟩ := base_parts hbase
+  rw [lvStmt_if_some] at hn
+  simp only [ConsStmt] at hc
+  have hmm : ∀ p ∈ σ, ∀ l, p.2 l → ((!L.c.live j || L.c.refFreeB l j) = true ∧ noRefListB L.c l t = true) ∧ noRefListB L.c l el = true := by
+    intro p hp l hl
+    have := hm p hp l hl
+    simpa [noRefB] using this
+  have hctx := exprCtx_of hs hiT hfn hf hn (fun p hp l hl => (hmm p hp l hl).1.1)
+  have hn2 := need_after hw hn
+  simp only [boundary] at hn2
+  simp only [execStmt]
+  obtain ⟨ho, hq⟩ := ih.expr c a b f j σ Γr A hfit ha hctx hr hi
+  chainF (evalExpr P L.cfg n c a), (evalExpr P plain n c b), ho, hq
+  cases P.cond v with
+  | error er => exact ⟨Or.inr ⟨rfl, A, hrel', trivial⟩, hq⟩
+  | ok bv =>
+    cases bv with
+    | false =>
+      obtain ⟨ho2, hq2⟩ := ih.block el s1 s2 f σ Γr { lc with kills := uni (L.c.scopeLocalsOf el) lc.kills }
+        (boundary (dif post.live (L.c.scopeLocalsOf el))) A hc.2.2 hlok2 hblk2 hf ha (fun p hp l hl => (hmm p hp l hl).2)
+        (need_mono (fun x hx => mem_uni_iff.mpr (Or.inr hx)) hn2) hrel' hq
+      refine ⟨loutF_block (bd := el) (lc' := { lc with kills := uni (L.c.scopeLocalsOf el) lc.kills }) hs rfl rfl rfl ?_ ho2, hq2⟩
+      intro x hx
+      by_cases hxs : x ∈ L.c.scopeLocalsOf el
+      · exact Or.inr hxs
+      · exact Or.inl (by simp only [boundary]; exact mem_dif_iff.mpr ⟨hx, hxs⟩)
+    | true =>
+      obtain ⟨ho2, hq2⟩ := ih.block t s1 s2 f σ Γr { lc with kills := uni (L.c.scopeLocalsOf t) lc.kills }
+        (boundary (dif post.live (L.c.scopeLocalsOf t))) A hc.2.1 hlok hblk hf ha (fun p hp l hl => (hmm p hp l hl).1.2)
+        (need_mono (fun x hx => mem_uni_iff.mpr (Or.inl hx)) hn2) hrel' hq
+      refine ⟨loutF_block (bd := t) (lc' := { lc with kills := uni (L.c.scopeLocalsOf t) lc.kills }) hs rfl rfl rfl ?_ ho2, hq2⟩
+      intro x hx
+      by_cases hxs : x ∈ L.c.scopeLocalsOf t
+      · exact Or.inr hxs
+      · exact Or.inl (by simp only [boundary]; exact mem_dif_iff.mpr ⟨hx, hxs⟩)
+
+theorem lstep_blockStmt (hs : LSetupOk L) (ih : LSim P L n)
+    (bd : List Stmt) (bs : Span) (j : Nat) (sp : Span) (rest : List Stmt) (a b : St V) (f : Nat)
+    (σ : SigM) (Γr : List Frame) (lc : LoopCtx) (post : LS) (A : Nat → Prop)
+    (hc : ConsStmt L.T true (.block (.mk bd bs) (some j) sp))
+    (hok : lokB L f (tagsOf σ) lc (.block (.mk bd bs) (some j) sp) post rest = true)
+    (hf : L.BR f = true) (ha : ActOk L f σ Γr) (hm : MOkStmt L σ (.block (.mk bd bs) (some j) sp))
+    (hn : Need L (lvStmt L.c f L.nl lc (.block (.mk bd bs) (some j) sp) post).1.live A)
+    (hr : LRel L (mkTop A σ ++ Γr) a b) (hi : LInv L b) :
+    LOutF L σ Γr lc post.live (fun _ => False) (execStmt P L.cfg (n + 1) (.block (.mk bd bs) (some j) sp) a)
+        (execStmt P plain (n + 1) (.block (.mk bd bs) (some j) sp) b) ∧
+      LInv L (execStmt P plain (n + 1) (.block (.mk bd bs) (some j) sp) b).2 := by
+  simp only [lokB, Bool.and_eq_true] at hok
+  obtain ⟨⟨⟨⟨_, hw⟩, _⟩, hblk⟩, hlok⟩ := hok
+  rw [lvStmt_block] at hn
+  simp only [ConsStmt] at hc
+  have hmm : ∀ p ∈ σ, ∀ l, p.2 l → noRefListB L.c l bd = true := by
+    intro p hp l hl
+    have := hm p hp l hl
+    simp only [noRefB, Bool.and_eq_true] at this
+    exact this.2
+  simp only [execStmt]
+  obtain ⟨ho2, hq2⟩ := ih.block bd a b f σ Γr { lc with kills := uni (L.c.scopeLocalsOf bd) lc.kills }
+    { live := uni (inter post.gen (L.c.scopeLocalsOf bd)) (dif post.live (L.c.scopeLocalsOf bd)), gen := post.gen } A
+    hc.2 hlok hblk hf ha hmm (need_after hw hn) hr hi
+  refine ⟨loutF_block (bd := bd) (lc' := { lc with kills := uni (L.c.scopeLocalsOf bd) lc.kills }) hs rfl rfl rfl ?_ ho2, hq2⟩
+  intro x hx
+  by_cases hxs : x ∈ L.c.scopeLocalsOf bd
+  · exact Or.inr hxs
+  · exact Or.inl (mem_uni_iff.mpr (Or.inr (mem_dif_iff.mpr ⟨hx, hxs⟩)))
+
+theorem lstep_stmt (hd : P.dscope = L.ds) (hs : LSetupOk L) (ih : LSim P L n) : ∀ (s : Stmt) (rest : List Stmt) (a b : St V)
+    (f i : Nat) (σ : SigM) (Γr : List Frame) (lc : LoopCtx) (post : LS) (A : Nat → Prop),
+    s.sid = some i → L.cfg.skip i = false → ConsStmt L.T true s → lokB L f (tagsOf σ) lc s post rest = true →
+    L.BR f = true → ActOk L f σ Γr → MOkStmt L σ s → Need L (lvStmt L.c f L.nl lc s post).1.live A →
+    LRel L (mkTop A σ ++ Γr) a b → LInv L b →
+    LOutF L σ Γr lc post.live (fun _ => False) (execStmt P L.cfg (n + 1) s a) (execStmt P plain (n + 1) s b) ∧
+      LInv L (execStmt P plain (n + 1) s b).2
+  | .assign vr vs e bd (some j) sp, rest, a, b, f, i, σ, Γr, lc, post, A, hsid, hsk, hc, hok, hf, ha, hm, hn, hr, hi => by
+      have hji : j = i := by simpa [Stmt.sid] using hsid
+      subst hji
+      exact lstep_assign hd hs ih vr vs e bd j sp rest a b f σ Γr lc post A hsk hc hok hf ha hm hn hr hi
+  | .assignExisting vr vs e bd (some j) sp, rest, a, b, f, i, σ, Γr, lc, post, A, hsid, hsk, hc, hok, hf, ha, hm, hn, hr, hi => by
+      have hji : j = i := by simpa [Stmt.sid] using hsid
+      subst hji
+      exact lstep_assignExisting hd hs ih vr vs e bd j sp rest a b f σ Γr lc post A hsk hc hok hf ha hm hn hr hi
+  | .assignIndex t e (some j) sp, rest, a, b, f, i, σ, Γr, lc, post, A, _, _, hc, hok, hf, ha, hm, hn, hr, hi =>
+      lstep_assignIndex hd hs ih t e j sp rest a b f σ Γr lc post A hc hok hf ha hm hn hr hi
+  | .ifS c (.mk t ts) none (some j) sp, rest, a, b, f, i, σ, Γr, lc, post, A, _, _, hc, hok, hf, ha, hm, hn, hr, hi =>
+      lstep_if_none hs ih c t ts j sp rest a b f σ Γr lc post A hc hok hf ha hm hn hr hi
+  | .ifS c (.mk t ts) (some (.mk el es)) (some j) sp, rest, a, b, f, i, σ, Γr, lc, post, A, _, _, hc, hok, hf, ha, hm, hn, hr, hi =>
+      lstep_if_some hs ih c t ts el es j sp rest a b f σ Γr lc post A hc hok hf ha hm hn hr hi
+  | .loop c (.mk bd bs) (some j) sp, rest, a, b, f, i, σ, Γr, lc, post, A, _, _, hc, hok, hf, ha, hm, hn, hr, hi => by
+      simp only [execStmt]
+      exact ih.loop c bd bs sp rest a b f j σ Γr lc post A hc hok hf ha hm hn hr hi
+  | .block (.mk bd bs) (some j) sp, rest, a, b, f, i, σ, Γr, lc, post, A, _, _, hc, hok, hf, ha, hm, hn, hr, hi =>
+      lstep_blockStmt hs ih bd bs j sp rest a b f σ Γr lc post A hc hok hf ha hm hn hr hi
+  | .fnDef nm ns ps (.mk body bs) (some g) (some j) sp, rest, a, b, f, i, σ, Γr, lc, post, A, _, _, _, hok, _, _, _, hn, hr, hi => by
+      simp only [lokB, Bool.and_eq_true] at hok
+      simp only [lvStmt] at hn
+      simp only [execStmt]
+      exact ⟨Or.inr ⟨rfl, A, hr, flowNeed_normal_other hok.1.1.1.1.1.2 hn⟩, hi⟩
+  | .fnDef nm ns ps (.mk body bs) none (some j) sp, rest, a, b, f, i, σ, Γr, lc, post, A, _, _, _, hok, _, _, _, hn, hr, hi => by
+      simp only [lokB, Bool.and_eq_true] at hok
+      simp only [lvStmt] at hn
+      simp only [execStmt]
+      exact ⟨Or.inr ⟨rfl, A, hr, flowNeed_normal_other hok.1.2 hn⟩, hi⟩
+  | .ret (some e) (some j) sp, rest, a, b, f, i, σ, Γr, lc, post, A, _, _, hc, hok, hf, ha, hm, hn, hr, hi =>
+      lstep_ret hs ih e j sp rest a b f σ Γr lc post A hc hok hf ha hm hn hr hi
+  | .ret none (some j) sp, rest, a, b, f, i, σ, Γr, lc, post, A, _, _, _, _, _, _, _, _, hr, hi => by
+      simp only [execStmt]
+      exact ⟨Or.inr ⟨rfl, A, hr, trivial⟩, hi⟩
+  | .brk (some j) sp, rest, a, b, f, i, σ, Γr, lc, post, A, _, _, _, hok, _, _, _, hn, hr, hi => by
+      simp only [lokB, Bool.and_eq_true] at hok
+      simp only [lvStmt] at hn
+      have hn2 := need_after hok.1.2 hn
+      simp only [execStmt]
+      refine ⟨Or.inr ⟨rfl, A, hr, ?_⟩, hi⟩
+      simp only [FlowNeed]
+      cases hb : lc.brk with
+      | none => trivial
+      | some bs =>
+        simp only [hb, boundary] at hn2 ⊢
+        intro x hx hdx
+        rcases hx with hx | hx
+        · exact hn2 x hx hdx
+        · exact absurd hx id
+  | .cont (some j) sp, rest, a, b, f, i, σ, Γr, lc, post, A, _, _, _, hok, _, _, _, hn, hr, hi => by
+      simp only [lokB, Bool.and_eq_true] at hok
+      simp only [lvStmt] at hn
+      have hn2 := need_after hok.1.2 hn
+      simp only [execStmt]
+      refine ⟨Or.inr ⟨rfl, A, hr, ?_⟩, hi⟩
+      simp only [FlowNeed]
+      cases hb : lc.cont with
+      | none => trivial
+      | some bs =>
+        simp only [hb, boundary] at hn2 ⊢
+        intro x hx hdx
+        rcases hx with hx | hx
+        · exact hn2 x hx hdx
+        · exact absurd hx id
+  | .expr e (some j) sp, rest, a, b, f, i, σ, Γr, lc, post, A, _, _, hc, hok, hf, ha, hm, hn, hr, hi =>
+      lstep_exprStmt hs ih e j sp rest a b f σ Γr lc post A hc hok hf ha hm hn hr hi
+  | .assign _ _ _ _ none _, _, _, _, _, _, _, _, _, _, _, hsid, _, _, _, _, _, _, _, _, _
+  | .assignExisting _ _ _ _ none _, _, _, _, _, _, _, _, _, _, _, hsid, _, _, _, _, _, _, _, _, _
+  | .assignIndex _ _ none _, _, _, _, _, _, _, _, _, _, _, hsid, _, _, _, _, _, _, _, _, _
+  | .ifS _ _ _ none _, _, _, _, _, _, _, _, _, _, _, hsid, _, _, _, _, _, _, _, _, _
+  | .loop _ _ none _, _, _, _, _, _, _, _, _, _, _, hsid, _, _, _, _, _, _, _, _, _
+  | .block _ none _, _, _, _, _, _, _, _, _, _, _, hsid, _, _, _, _, _, _, _, _, _
+  | .fnDef _ _ _ _ _ none _, _, _, _, _, _, _, _, _, _, _, hsid, _, _, _, _, _, _, _, _, _
+  | .ret _ none _, _, _, _, _, _, _, _, _, _, _, hsid, _, _, _, _, _, _, _, _, _
+  | .brk none _, _, _, _, _, _, _, _, _, _, _, hsid, _, _, _, _, _, _, _, _, _
+  | .cont none _, _, _, _, _, _, _, _, _, _, _, hsid, _, _, _, _, _, _, _, _, _
+  | .expr _ none _, _, _, _, _, _, _, _, _, _, _, hsid, _, _, _, _, _, _, _, _, _ => by simp [Stmt.sid] at hsid
+
+/-! ### Blocks -/
+
+theorem hoist_okL : ∀ (f : Nat) (σ : List (Option Nat)) (lc : LoopCtx) (ss : List Stmt) (post : LS),
+    lokListB L f σ lc ss post = true → ∀ fd ∈ hoist ss, fnOkB L fd.id fd.params fd.body = true
+  | _, _, _, [], _, _ => by simp [hoist]
+  | f, σ, lc, s :: ss, post, h => by
+      simp only [lokListB, Bool.and_eq_true] at h
+      have ih := hoist_okL f σ lc ss post h.2
+      match s, h.1 with
+      | .fnDef _ _ ps (.mk bd _) (some g) (some j) _, h1 =>
+        simp only [lokB, Bool.and_eq_true] at h1
+        intro fd hfd
+        simp only [hoist] at hfd
+        rcases List.mem_cons.mp hfd with rfl | hfd
+        · simp only [fnOkB, Bool.and_eq_true]
+          exact ⟨⟨⟨h1.1.1.1.2, h1.1.1.2⟩, h1.1.2⟩, h1.2⟩
+        · exact ih fd hfd
+      | .fnDef _ _ ps (.mk bd _) (some g) none _, h1 =>
+        simp only [lokB, Bool.and_eq_true] at h1
+        intro fd hfd
+        simp only [hoist] at hfd
+        rcases List.mem_cons.mp hfd with rfl | hfd
+        · simp only [fnOkB, Bool.and_eq_true]
+          exact h1
+        · exact ih fd hfd
+      | .fnDef _ _ _ (.mk _ _) none _ _, _ => simpa [hoist] using ih
+      | .assign .., _ | .assignExisting .., _ | .assignIndex .., _ | .ifS .., _ | .loop .., _ | .block .., _
+      | .ret .., _ | .brk .., _ | .cont .., _ | .expr .., _ => simpa [hoist] using ih
+
+theorem flowNeed_extra {lc : LoopCtx} {post : List Nat} {extra A' A'' : Nat → Prop} {r : Except Err (Flow V)}
+    (h1 : ∀ x, A' x → A'' x) (h2 : ∀ x, extra x → A'' x)
+    (h : FlowNeed L lc post (fun _ => False) A' r) : FlowNeed L lc post extra A'' r := by
+  match r, h with
+  | .error _, _ => trivial
+  | .ok (.ret _), _ => trivial
+  | .ok .normal, h =>
+    intro x hx hdx
+    rcases hx with hx | hx
+    · exact h1 x (h x (Or.inl hx) hdx)
+    · exact h2 x hx
+  | .ok .brk, h =>
+    simp only [FlowNeed] at h ⊢
+    cases hbk : lc.brk with
+    | none => trivial
+    | some bs =>
+      simp only [hbk] at h ⊢
+      intro x hx hdx
+      rcases hx with hx | hx
+      · exact h1 x (h x (Or.inl hx) hdx)
+      · exact h2 x hx
+  | .ok .cont, h =>
+    simp only [FlowNeed] at h ⊢
+    cases hbk : lc.cont with
+    | none => trivial
+    | some bs =>
+      simp only [hbk] at h ⊢
+      intro x hx hdx
+      rcases hx with hx | hx
+      · exact h1 x (h x (Or.inl hx) hdx)
+      · exact h2 x hx
+
+theorem blockOk_parts {f : Nat} {σ : List (Option Nat)} {ss : List Stmt} (h : L.blockOkB f σ ss = true) :
+    ∀ tg, blockTag L.ss ss = some tg → some tg ∉ σ ∧ L.scopeOwner tg = some f := by
+  intro tg htg
+  simp only [LSetup.blockOkB, htg, Bool.and_eq_true, Bool.not_eq_true', beq_iff_eq] at h
+  exact ⟨by simpa using h.1, h.2⟩
+
+theorem lstep_block (hss : P.sscope = L.ss) (ih : LSim P L n) (ss : List Stmt) (a b : St V) (f : Nat) (σ : SigM)
+    (Γr : List Frame) (lc : LoopCtx) (post : LS) (A : Nat → Prop)
+    (hcs : ConsStmts L.T true ss) (hok : lokListB L f (blockTag L.ss ss :: tagsOf σ) lc ss post = true)
+    (hblk : L.blockOkB f (tagsOf σ) ss = true) (hf : L.BR f = true) (ha : ActOk L f σ Γr) (hm : MOkList L σ ss)
+    (hn : Need L (lvStmts L.c f L.nl lc ss post).1.live A)
+    (hr : LRel L (mkTop A σ ++ Γr) a b) (hi : LInv L b) :
+    LOutF L σ Γr lc post.live (blockLocals L ss) (execBlock P L.cfg (n + 1) ss a) (execBlock P plain (n + 1) ss b) ∧
+      LInv L (execBlock P plain (n + 1) ss b).2 := by
+  simp only [execBlock, hss]
+  have hbp := blockOk_parts hblk
+  have hr1 : LRel L (mkTop A ((blockTag L.ss ss, fun _ => False) :: σ) ++ Γr)
+      { a with env := ⟨blockTag L.ss ss, []⟩ :: a.env, fns := hoist ss :: a.fns }
+      { b with env := ⟨blockTag L.ss ss, []⟩ :: b.env, fns := hoist ss :: b.fns } :=
+    ⟨hr.1, by simp [hr.2.1], erel_push hr.2.2 (blockTag L.ss ss) A (fun _ => False) []⟩
+  have hi1 : LInv L { b with env := ⟨blockTag L.ss ss, []⟩ :: b.env, fns := hoist ss :: b.fns } :=
+    ⟨⟨FnsOk.push hi.1.1 (hoist_ok true ss hcs), hi.1.2⟩,
+     by
+      intro sc hsc
+      rcases List.mem_cons.mp hsc with rfl | h'
+      · exact hoist_okL f _ lc ss post hok
+      · exact hi.2 sc h'⟩
+  have hact : ActOk L f ((blockTag L.ss ss, fun _ => False) :: σ) Γr :=
+    { own := by
+        intro tg htg
+        simp only [tagsOf, List.map_cons, List.mem_cons] at htg
+        rcases htg with htg | htg
+        · exact (hbp tg htg.symm).2
+        · exact ha.own tg htg
+      susp := ha.susp
+      nodup := ⟨fun tg htg => (hbp tg htg).1, ha.nodup⟩ }
+  have hmok : MOkList L ((blockTag L.ss ss, fun _ => False) :: σ) ss := by
+    intro p hp l hl
+    rcases List.mem_cons.mp hp with rfl | hp
+    · exact absurd hl id
+    · exact hm p hp l hl
+  obtain ⟨⟨M', ho⟩, hq⟩ := ih.stmts ss _ _ f (blockTag L.ss ss) (fun _ => False) σ Γr lc post A hcs hok hf hact hmok hn hr1 hi1
+  generalize execStmts P plain n ss { b with env := ⟨blockTag L.ss ss, []⟩ :: b.env, fns := hoist ss :: b.fns } = r2 at ho hq ⊢
+  generalize execStmts P L.cfg n ss { a with env := ⟨blockTag L.ss ss, []⟩ :: a.env, fns := hoist ss :: a.fns } = r1 at ho ⊢
+  obtain ⟨x2, s2⟩ := r2
+  obtain ⟨x1, s1⟩ := r1
+  refine ⟨?_, linv_pop hq⟩
+  rcases ho with hbad | ⟨heq, A', hrel, hfn⟩
+  · exact Or.inl hbad
+  · refine Or.inr ⟨heq, fun x => A' x ∨ blockLocals L ss x, ?_, flowNeed_extra (fun _ => Or.inl) (fun _ => Or.inr) hfn⟩
+    have hp : LRel L (mkTop A' σ ++ Γr) { s1 with env := s1.env.drop 1, fns := s1.fns.drop 1 }
+        { s2 with env := s2.env.drop 1, fns := s2.fns.drop 1 } := lrel_pop hrel
+    refine ⟨hp.1, hp.2.1, erel_top_weaken hp.2.2 ?_⟩
+    intro y tg hy hin hA
+    rcases hA with hA | ⟨tg', hb', hy'⟩
+    · exact hA
+    · rw [hy] at hy'; cases hy'
+      exact absurd hin (hbp tg hb').1
+
+/-! ### Statement lists -/
+
+theorem ownStore_skipped (hs : LSetupOk L) {f i : Nat} {σ : List (Option Nat)} {isDecl : Bool} {l : Nat} {e : Expr} {st : LS}
+    {rest : List Stmt} (hT : (i, true) ∈ L.T) (hsk : L.cfg.skip i = true) (h : L.ownStoreB f σ i isDecl l e st rest = true) :
+    L.c.writes i = [l] ∧ L.q f e = true ∧ (l ∉ st.live ∨ L.D2 l = true) ∧ (isDecl = true → noRefListB L.c l rest = true) ∧
+      (isDecl = false → ∃ tg, L.ds l = some tg ∧ some tg ∈ σ) := by
+  simp only [LSetup.ownStoreB, Bool.and_eq_true, beq_iff_eq, hsk, Bool.not_true, Bool.false_or, Bool.or_eq_true] at h
+  obtain ⟨⟨hw, htag⟩, hrule⟩ := h
+  rcases hrule with hdead | hrule
+  · simp only [LSetup.deadB] at hdead
+    exact absurd (by simpa using hdead) (hs.func i hT)
+  · refine ⟨hw, hrule.1.1, ?_, ?_, ?_⟩
+    · have := hrule.1.2
+      simp only [Bool.not_eq_true', List.contains_eq_mem, decide_eq_false_iff_not] at this
+      exact this
+    · intro hd
+      have := hrule.2
+      simpa [hd] using this
+    · intro hd
+      simp only [hd, Bool.false_eq_true, ↓reduceIte] at htag
+      exact inTags_iff.mp htag
+
+theorem skipped_store (hs : LSetupOk L) {f i : Nat} {σ : List (Option Nat)} {lc : LoopCtx} {st : LS} {rest : List Stmt} :
+    ∀ {s : Stmt}, s.sid = some i → (i, true) ∈ L.T → L.cfg.skip i = true → lokB L f σ lc s st rest = true →
+    (∃ vr vs e l sp, s = .assign vr vs e (some l) (some i) sp ∧ L.c.writes i = [l] ∧ L.q f e = true ∧
+        (l ∉ st.live ∨ L.D2 l = true) ∧ noRefListB L.c l rest = true) ∨
+    (∃ vr vs e l sp tg, s = .assignExisting vr vs e (some l) (some i) sp ∧ L.c.writes i = [l] ∧ L.ds l = some tg ∧ some tg ∈ σ ∧
+        L.q f e = true ∧ (l ∉ st.live ∨ L.D2 l = true))
+  | .assign vr vs e bd (some j) sp, hsid, hT, hsk, hok => by
+      have hji : j = i := by simpa [Stmt.sid] using hsid
+      subst hji
+      simp only [lokB, Bool.and_eq_true] at hok
+      cases bd with
+      | none => simp only [] at hok; rw [other_dead hs hT hok.2] at hsk; cases hsk
+      | some l =>
+        simp only [Bool.and_eq_true] at hok
+        obtain ⟨h1, h2, h3, h4, _⟩ := ownStore_skipped hs hT hsk hok.2.2
+        exact Or.inl ⟨vr, vs, e, l, sp, rfl, h1, h2, h3, h4 rfl⟩
+  | .assignExisting vr vs e bd (some j) sp, hsid, hT, hsk, hok => by
+      have hji : j = i := by simpa [Stmt.sid] using hsid
+      subst hji
+      simp only [lokB, Bool.and_eq_true] at hok
+      cases bd with
+      | none => simp only [] at hok; rw [other_dead hs hT hok.2] at hsk; cases hsk
+      | some l =>
+        have h2 := hok.2
+        simp only [] at h2
+        split at h2
+        · obtain ⟨h1, h2, h3, _, h5⟩ := ownStore_skipped hs hT hsk h2
+          obtain ⟨tg, ht1, ht2⟩ := h5 rfl
+          exact Or.inr ⟨vr, vs, e, l, sp, tg, rfl, h1, ht1, ht2, h2, h3⟩
+        · simp only [Bool.and_eq_true] at h2
+          rw [other_dead hs hT h2.2] at hsk; cases hsk
+  | .assignIndex _ _ (some j) _, hsid, hT, hsk, hok | .ifS _ (.mk _ _) none (some j) _, hsid, hT, hsk, hok
+  | .ifS _ (.mk _ _) (some (.mk _ _)) (some j) _, hsid, hT, hsk, hok | .loop _ (.mk _ _) (some j) _, hsid, hT, hsk, hok
+  | .block (.mk _ _) (some j) _, hsid, hT, hsk, hok | .fnDef _ _ _ (.mk _ _) (some _) (some j) _, hsid, hT, hsk, hok
+  | .fnDef _ _ _ (.mk _ _) none (some j) _, hsid, hT, hsk, hok | .ret (some _) (some j) _, hsid, hT, hsk, hok
+  | .ret none (some j) _, hsid, hT, hsk, hok | .brk (some j) _, hsid, hT, hsk, hok
+  | .cont (some j) _, hsid, hT, hsk, hok | .expr _ (some j) _, hsid, hT, hsk, hok => by
+      have hji : j = i := by simpa [Stmt.sid] using hsid
+      subst hji
+      simp only [lokB, Bool.and_eq_true] at hok
+      first
+        | (rw [other_dead hs hT hok.2] at hsk; cases hsk)
+        | (rw [other_dead hs hT hok.1.2] at hsk; cases hsk)
+        | (rw [other_dead hs hT hok.1.1.2] at hsk; cases hsk)
+        | (rw [other_dead hs hT hok.1.1.1.2] at hsk; cases hsk)
+        | (rw [other_dead hs hT hok.1.1.1.1.2] at hsk; cases hsk)
+        | (rw [other_dead hs hT hok.1.1.1.1.1.2] at hsk; cases hsk)
+  | .assign _ _ _ _ none _, hsid, _, _, _ | .assignExisting _ _ _ _ none _, hsid, _, _, _
+  | .assignIndex _ _ none _, hsid, _, _, _ | .ifS _ _ _ none _, hsid, _, _, _ | .loop _ _ none _, hsid, _, _, _
+  | .block _ none _, hsid, _, _, _ | .fnDef _ _ _ _ _ none _, hsid, _, _, _ | .ret _ none _, hsid, _, _, _
+  | .brk none _, hsid, _, _, _ | .cont none _, hsid, _, _, _ | .expr _ none _, hsid, _, _, _ => by
+      simp [Stmt.sid] at hsid
+
+theorem noRefList_cons {l : Nat} {s : Stmt} {ss : List Stmt} (h : noRefListB L.c l (s :: ss) = true) :
+    noRefB L.c l s = true ∧ noRefListB L.c l ss = true := by
+  simpa [noRefListB] using h
+
+/-- The plain run of a declaration with a droppable initialiser. -/
+theorem qassign (hqt : QuietIn P L) {f : Nat} {e : Expr} (hqe : L.q f e = true) (m : Nat) (st : St V) (hi : LInv L st)
+    (vr : Bytes) (vs : Span) (l : Nat) (sid : Option Nat) (sp : Span) :
+    (Bad (execStmt P plain m (.assign vr vs e (some l) sid sp) st).1 ∧
+        LInv L (execStmt P plain m (.assign vr vs e (some l) sid sp) st).2) ∨
+      ∃ val st2, execStmt P plain m (.assign vr vs e (some l) sid sp) st =
+          (.ok .normal, { st2 with env := defineEnv l val st2.env }) ∧
+        st2.env = st.env ∧ st2.out = st.out ∧ st2.fns = st.fns ∧ LInv L st2 := by
+  cases m with
+  | zero => exact Or.inl ⟨Or.inl (by simp [execStmt]), by simpa [execStmt] using hi⟩
+  | succ m =>
+    obtain ⟨h1, h2, h3, h4⟩ := hqt f e m st hqe hi.2
+    have hinv := ((main_all P (plain_harmless L.T) m).expr e st hi.1).2
+    simp only [execStmt]
+    generalize evalExpr P plain m e st = r at h1 h2 h3 h4 hinv ⊢
+    obtain ⟨x, s'⟩ := r
+    simp only at h1 h2 h3 h4 hinv
+    have hi' : LInv L s' := ⟨hinv, by rw [h4]; exact hi.2⟩
+    rcases h1 with ⟨v, hv⟩ | hb
+    · subst hv
+      exact Or.inr ⟨v, s', rfl, h2, h3, h4, hi'⟩
+    · rcases hb with hb | hb | hb <;> subst hb
+      · exact Or.inl ⟨bad_fuel, hi'⟩
+      · exact Or.inl ⟨bad_unbound, hi'⟩
+      · exact Or.inl ⟨bad_panic, hi'⟩
+
+/-- The plain run of a store with a droppable initialiser. -/
+theorem qassignExisting (hqt : QuietIn P L) {f : Nat} {e : Expr} (hqe : L.q f e = true) (m : Nat) (st : St V) (hi : LInv L st)
+    (vr : Bytes) (vs : Span) (l : Nat) (sid : Option Nat) (sp : Span) :
+    (Bad (execStmt P plain m (.assignExisting vr vs e (some l) sid sp) st).1 ∧
+        LInv L (execStmt P plain m (.assignExisting vr vs e (some l) sid sp) st).2) ∨
+      ∃ val env' st2, assignEnv P.dscope l val st2.env = some env' ∧
+        execStmt P plain m (.assignExisting vr vs e (some l) sid sp) st = (.ok .normal, { st2 with env := env' }) ∧
+        st2.env = st.env ∧ st2.out = st.out ∧ st2.fns = st.fns ∧ LInv L st2 := by
+  cases m with
+  | zero => exact Or.inl ⟨Or.inl (by simp [execStmt]), by simpa [execStmt] using hi⟩
+  | succ m =>
+    obtain ⟨h1, h2, h3, h4⟩ := hqt f e m st hqe hi.2
+    have hinv := ((main_all P (plain_harmless L.T) m).expr e st hi.1).2
+    simp only [execStmt]
+    generalize evalExpr P plain m e st = r at h1 h2 h3 h4 hinv ⊢
+    obtain ⟨x, s'⟩ := r
+    simp only at h1 h2 h3 h4 hinv
+    have hi' : LInv L s' := ⟨hinv, by rw [h4]; exact hi.2⟩
+    rcases h1 with ⟨v, hv⟩ | hb
+    · subst hv
+      simp only [Option.bind_some]
+      cases ha : assignEnv P.dscope l v s'.env with
+      | none => exact Or.inl ⟨bad_unbound, hi'⟩
+      | some env' => exact Or.inr ⟨v, env', s', ha, rfl, h2, h3, h4, hi'⟩
+    · rcases hb with hb | hb | hb <;> subst hb
+      · exact Or.inl ⟨bad_fuel, hi'⟩
+      · exact Or.inl ⟨bad_unbound, hi'⟩
+      · exact Or.inl ⟨bad_panic, hi'⟩
+
+theorem lstep_stmts (hd : P.dscope = L.ds) (hs : LSetupOk L) (hqt : QuietIn P L) (ih : LSim P L n) :
+    ∀ (ss : List Stmt) (a b : St V) (f : Nat) (tg : Option Nat) (M : Nat → Prop) (σ : SigM) (Γr : List Frame)
+      (lc : LoopCtx) (post : LS) (A : Nat → Prop),
+    ConsStmts L.T true ss → lokListB L f (tagsOf ((tg, M) :: σ)) lc ss post = true →
+    L.BR f = true → ActOk L f ((tg, M) :: σ) Γr → MOkList L ((tg, M) :: σ) ss →
+    Need L (lvStmts L.c f L.nl lc ss post).1.live A →
+    LRel L (mkTop A ((tg, M) :: σ) ++ Γr) a b → LInv L b →
+    (∃ M', LOutF L ((tg, M') :: σ) Γr lc post.live (fun _ => False) (execStmts P L.cfg (n + 1) ss a)
+        (execStmts P plain (n + 1) ss b)) ∧
+      LInv L (execStmts P plain (n + 1) ss b).2
+  | [], a, b, f, tg, M, σ, Γr, lc, post, A, _, _, _, _, _, hn, hr, hi => by
+      refine ⟨⟨M, Or.inr ⟨rfl, A, hr, ?_⟩⟩, hi⟩
+      intro x hx hdx
+      rcases hx with hx | hx
+      · exact hn x (by simpa [lvStmts] using hx) hdx
+      · exact absurd hx id
+  | s :: ss, a, b, f, tg, M, σ, Γr, lc, post, A, hcs, hok, hf, ha, hm, hn, hr, hi => by
+      obtain ⟨hc1, hc2⟩ := hcs
+      simp only [lokListB, Bool.and_eq_true] at hok
+      obtain ⟨hok1, hok2⟩ := hok
+      rw [lvStmts_cons] at hn
+      have hm1 : MOkStmt L ((tg, M) :: σ) s := fun p hp l hl => (noRefList_cons (hm p hp l hl)).1
+      have hm2 : MOkList L ((tg, M) :: σ) ss := fun p hp l hl => (noRefList_cons (hm p hp l hl)).2
+      simp only [execStmts]
+      cases hsid : s.sid with
+      | none => exact ⟨⟨M, Or.inr ⟨rfl, A, hr, trivial⟩⟩, hi⟩
+      | some i =>
+        have hiT : (i, true) ∈ L.T := consStmt_inTbl hc1 i hsid
+        have hpl : plain.skip i = false := rfl
+        simp only [hpl, Bool.false_eq_true, ↓reduceIte]
+        have hi' : LInv L { b with trace := i :: b.trace } :=
+          ⟨⟨hi.1.1, by
+              intro j hj
+              rcases List.mem_cons.mp hj with rfl | hj
+              · exact hiT
+              · exact hi.1.2 j hj⟩, hi.2⟩
+        have hmn := (main_all P (plain_harmless L.T) n).stmt s { b with trace := i :: b.trace } hc1 hi'.1
+        have hafter := hmn.2.2
+        cases hsk : L.cfg.skip i with
+        | false =>
+          simp only [Bool.false_eq_true, ↓reduceIte]
+          have hr' : LRel L (mkTop A ((tg, M) :: σ) ++ Γr) { a with trace := i :: a.trace } { b with trace := i :: b.trace } := hr
+          obtain ⟨ho, hq⟩ := ih.stmt s ss _ _ f i ((tg, M) :: σ) Γr lc (lvStmts L.c f L.nl lc ss post).1 A hsid hsk hc1 hok1 hf ha hm1 hn hr' hi'
+          generalize execStmt P plain n s { b with trace := i :: b.trace } = r2 at ho hq hafter ⊢
+          generalize execStmt P L.cfg n s { a with trace := i :: a.trace } = r1 at ho ⊢
+          obtain ⟨x2, s2⟩ := r2
+          obtain ⟨x1, s1⟩ := r1
+          rcases ho with hbad | ⟨heq, A', hrel', hfn⟩
+          · rcases hbad with hb | hb | hb <;> (simp only at hb; subst hb)
+            · exact ⟨⟨M, Or.inl bad_fuel⟩, hq⟩
+            · exact ⟨⟨M, Or.inl bad_unbound⟩, hq⟩
+            · exact ⟨⟨M, Or.inl bad_panic⟩, hq⟩
+          · simp only at heq
+            subst heq
+            rcases x1 with er | fl
+            · exact ⟨⟨M, Or.inr ⟨rfl, A', hrel', trivial⟩⟩, hq⟩
+            · cases fl with
+              | normal =>
+                have haf : afterStmt true s = true := hafter rfl
+                rw [haf] at hc2
+                exact ih.stmts ss s1 s2 f tg M σ Γr lc post A' hc2 hok2 hf ha hm2
+                  (fun x hx hdx => hfn x (Or.inl hx) hdx) hrel' hq
+              | ret v => exact ⟨⟨M, Or.inr ⟨rfl, A', hrel', trivial⟩⟩, hq⟩
+              | brk => exact ⟨⟨M, Or.inr ⟨rfl, A', hrel', hfn⟩⟩, hq⟩
+              | cont => exact ⟨⟨M, Or.inr ⟨rfl, A', hrel', hfn⟩⟩, hq⟩
+        | true =>
+          simp only [↓reduceIte]
+          rcases skipped_store hs hsid hiT hsk hok1 with ⟨vr, vs, e, l, sp, rfl, hw, hqe, hdeadl, hnoref⟩ |
+            ⟨vr, vs, e, l, sp, tgl, rfl, hw, hdl, hinl, hqe, hdeadl⟩
+          · -- a removed declaration
+            have hc2' : ConsStmts L.T true ss := by simpa [afterStmt] using hc2
+            simp only [lvStmt] at hn
+            have hn' : Need L (lvStmts L.c f L.nl lc ss post).1.live A := by
+              intro x hx hdx
+              have hxl : x ≠ l := by
+                rintro rfl
+                rcases hdeadl with h | h
+                · exact h hx
+                · rw [h] at hdx; cases hdx
+              refine hn x (mem_transfer.mpr (Or.inr (Or.inr ⟨hx, ?_⟩))) hdx
+              rw [hw]; simpa using hxl
+            rcases qassign hqt hqe n { b with trace := i :: b.trace } hi' vr vs l (some i) sp with ⟨hb, hinv⟩ | ⟨val, st2, hv, he2, ho2, hf2, hi2⟩
+            · generalize execStmt P plain n (.assign vr vs e (some l) (some i) sp) { b with trace := i :: b.trace } = r2 at hb hinv ⊢
+              obtain ⟨x2, s2⟩ := r2
+              rcases hb with hb | hb | hb <;> (simp only at hb; subst hb)
+              · exact ⟨⟨M, Or.inl bad_fuel⟩, hinv⟩
+              · exact ⟨⟨M, Or.inl bad_unbound⟩, hinv⟩
+              · exact ⟨⟨M, Or.inl bad_panic⟩, hinv⟩
+            · rw [hv]
+              simp only []
+              have hr2 : LRel L (mkTop A ((tg, fun y => M y ∨ y = l) :: σ) ++ Γr) a
+                  { st2 with env := defineEnv l val st2.env } :=
+                ⟨hr.1.trans ho2.symm, hr.2.1.trans hf2.symm, by
+                  rw [he2]
+                  exact erel_define_plain (x := l) (v := val) (fr := ⟨tg, A, M⟩) hr.2.2⟩
+              have hi2' : LInv L { st2 with env := defineEnv l val st2.env } := hi2
+              have hm2' : MOkList L ((tg, fun y => M y ∨ y = l) :: σ) ss := by
+                intro p hp l' hl'
+                rcases List.mem_cons.mp hp with rfl | hp
+                · rcases hl' with hl' | hl'
+                  · exact hm2 (tg, M) (by simp) l' hl'
+                  · subst hl'; exact hnoref
+                · exact hm2 p (List.mem_cons_of_mem _ hp) l' hl'
+              exact ih.stmts ss a _ f tg (fun y => M y ∨ y = l) σ Γr lc post A hc2' hok2 hf (actOk_tags ha rfl) hm2' hn' hr2 hi2'
+          · -- a removed store
+            have hc2' : ConsStmts L.T true ss := by simpa [afterStmt] using hc2
+            simp only [lvStmt] at hn
+            rcases qassignExisting hqt hqe n { b with trace := i :: b.trace } hi' vr vs l (some i) sp with
+              ⟨hb, hinv⟩ | ⟨val, env', st2, hae, hv, he2, ho2, hf2, hi2⟩
+            · generalize execStmt P plain n (.assignExisting vr vs e (some l) (some i) sp) { b with trace := i :: b.trace } = r2 at hb hinv ⊢
+              obtain ⟨x2, s2⟩ := r2
+              rcases hb with hb | hb | hb <;> (simp only at hb; subst hb)
+              · exact ⟨⟨M, Or.inl bad_fuel⟩, hinv⟩
+              · exact ⟨⟨M, Or.inl bad_unbound⟩, hinv⟩
+              · exact ⟨⟨M, Or.inl bad_panic⟩, hinv⟩
+            · rw [hv]
+              simp only []
+              rw [hd, he2] at hae
+              have hr2 : LRel L (mkTop (fun y => A y ∧ y ≠ l) ((tg, M) :: σ) ++ Γr) a { st2 with env := env' } :=
+                ⟨hr.1.trans ho2.symm, hr.2.1.trans hf2.symm, erel_assign_plain_top hr.2.2 hdl hinl ha.nodup hae⟩
+              have hi2' : LInv L { st2 with env := env' } := hi2
+              have hn' : Need L (lvStmts L.c f L.nl lc ss post).1.live (fun y => A y ∧ y ≠ l) := by
+                intro x hx hdx
+                have hxl : x ≠ l := by
+                  rintro rfl
+                  rcases hdeadl with h | h
+                  · exact h hx
+                  · rw [h] at hdx; cases hdx
+                refine ⟨hn x (mem_transfer.mpr (Or.inr (Or.inr ⟨hx, ?_⟩))) hdx, hxl⟩
+                rw [hw]; simpa using hxl
+              exact ih.stmts ss a _ f tg M σ Γr lc post _ hc2' hok2 hf ha hm2 hn' hr2 hi2'
+
+end sstep
 
 end NaijaVerif.C03
